@@ -139,4 +139,80 @@ example : modComp T1 (str% "Foo#g1") = modComp T1 (str% "Foo") := by decide +ker
 example : modComp T1 (str% "42#g1") = .ok [(str% "H", Num.ofInt 2)] := by decide +kernel
 example : modComp T1 (str% "42") = .error .invalidComp := by decide +kernel
 
+/-! ## 4. a multiplier multiplies -/
+
+/-- `mod_mass(Mod(s, k))` is `mod_mass(s)` with the finite mass multiplied by `k`; errors and non-finite results pass -/
+theorem multiplier_scales (T : Tables) (s : Str) (k : Int) (mono : Bool) :
+    modMassMult T s k mono = (modMass T s mono).map (fun m => m.map (· * (k : Rat))) := rfl
+
+theorem multiplier_finite (T : Tables) (s : Str) (k : Int) (mono : Bool) (m : Rat)
+    (h : modMass T s mono = .ok (some m)) : modMassMult T s k mono = .ok (some (m * (k : Rat))) := by
+  simp [modMassMult, h, Except.map]
+
+theorem multiplier_error (T : Tables) (s : Str) (k : Int) (mono : Bool) (e : Err)
+    (h : modMass T s mono = .error e) : modMassMult T s k mono = .error e := by
+  simp [modMassMult, h, Except.map]
+
+/-- multiplier 1 changes nothing (for every outcome) -/
+theorem multiplier_one (T : Tables) (s : Str) (mono : Bool) : modMassMult T s 1 mono = modMass T s mono := by
+  rw [multiplier_scales]
+  cases modMass T s mono with
+  | error e => rfl
+  | ok o => cases o <;> simp [Except.map]
+
+theorem multiplier_zero (T : Tables) (s : Str) (mono : Bool) (m : Rat) (h : modMass T s mono = .ok (some m)) :
+    modMassMult T s 0 mono = .ok (some 0) := by
+  simp [modMassMult, h, Except.map]
+
+/-- multipliers add up: `k = a + b` gives the sum of the two masses -/
+theorem multiplier_add (T : Tables) (s : Str) (a b : Int) (mono : Bool) (x y : Rat)
+    (ha : modMassMult T s a mono = .ok (some x)) (hb : modMassMult T s b mono = .ok (some y)) :
+    modMassMult T s (a + b) mono = .ok (some (x + y)) := by
+  rw [multiplier_scales] at ha hb ⊢
+  cases hm : modMass T s mono with
+  | error e => rw [hm] at ha; cases ha
+  | ok o =>
+    cases o with
+    | none => rw [hm] at ha; cases ha
+    | some m =>
+      rw [hm] at ha hb
+      simp only [Except.map, Option.map, Except.ok.injEq, Option.some.injEq] at ha hb ⊢
+      rw [← ha, ← hb, rat_mul_add]
+
+/-- nesting: multiplier `a * b` = multiplying the `a`-fold mass by `b` -/
+theorem multiplier_mul (T : Tables) (s : Str) (a b : Int) (mono : Bool) :
+    modMassMult T s (a * b) mono = (modMassMult T s a mono).map (fun m => m.map (· * (b : Rat))) := by
+  rw [multiplier_scales, multiplier_scales]
+  cases modMass T s mono with
+  | error e => rfl
+  | ok o => cases o <;> simp [Except.map, Rat.mul_assoc]
+
+example : modMassMult T0 (str% "+1.5") 3 true = .ok (some (9 / 2)) := by decide +kernel
+
+/-- `mod_comp(Mod(s, k))` multiplies every count by `k` (`Num.mul`: the float flag of a count is kept) -/
+theorem multiplier_scales_comp (T : Tables) (s : Str) (k : Int) :
+    modCompMult T s k = (modComp T s).map (scaleComp k) := rfl
+
+theorem multiplier_comp_keys_vals (T : Tables) (s : Str) (k : Int) (c : Comp) (h : modComp T s = .ok c) :
+    ∃ c', modCompMult T s k = .ok c' ∧ c'.map (·.1) = c.map (·.1) ∧
+      c'.map (·.2.val) = c.map (fun kv => kv.2.val * (k : Rat)) := by
+  refine ⟨scaleComp k c, ?_, scaleComp_keys k c, scaleComp_vals k c⟩
+  simp [multiplier_scales_comp, h, Except.map]
+
+theorem multiplier_one_comp (T : Tables) (s : Str) : modCompMult T s 1 = modComp T s := by
+  rw [multiplier_scales_comp]
+  cases modComp T s with
+  | error e => rfl
+  | ok c => simp [Except.map, scaleComp_one]
+
+/-- consistency of the two multipliers: the chemical mass of the `k`-fold composition is `k` times the mass of the
+composition (`chem_mass` is linear in the counts) -/
+theorem multiplier_comp_mass (T : Tables) (s : Str) (k : Int) (mono : Bool) (c : Comp) (h : modComp T s = .ok c) :
+    ∃ c', modCompMult T s k = .ok c' ∧
+      chemMassComp T.mass mono c' = (chemMassComp T.mass mono c).map (· * (k : Rat)) := by
+  refine ⟨scaleComp k c, ?_, chemMassComp_scale T.mass mono k c⟩
+  simp [multiplier_scales_comp, h, Except.map]
+
+example : modCompMult T1 (str% "Foo") 3 = .ok [(str% "H", Num.ofInt 6)] := by decide +kernel
+
 end C10Generic
